@@ -104,31 +104,113 @@ def _counts(rng):
     return "[" + ",".join(map(str, xs)) + "]"
 
 
-def gen_pk_statement(rng, wild_p):
+def gen_pk_spec(rng, wild_p):
+    """one PK statement as data: (kind, counts-or-None, modes) with modes '*' or a list"""
+    def modes(pool, wp):
+        r = rng.random()
+        if r < wp:
+            return "*"
+        if r < wp + 0.45:
+            return [rng.choice(pool)]
+        k = rng.choice([1, 1, 2, 2, 3, 4, 0 if rng.random() < 0.15 else 2]) if rng.random() < 0.9 else 5
+        return [rng.choice(pool) for _ in range(k)] if rng.random() < 0.3 else rng.sample(pool, min(k, len(pool)))
+
+    def counts():
+        r = rng.random()
+        if r < 0.4:
+            return [rng.randint(0, 5)]
+        if r < 0.7:
+            a = rng.randint(0, 4)
+            b = a + rng.choice([0, 1, 1, 2, 3]) if rng.random() < 0.98 else max(0, a - 1)
+            return list(range(a, min(b, 7) + 1))
+        k = rng.choice([1, 1, 2, 2, 3, 3, 4, 0 if rng.random() < 0.15 else 2]) if rng.random() < 0.95 else 5
+        return [rng.randint(0, 7) for _ in range(k)]
+
     k = rng.random()
     if k < 0.2:
-        return f"{_case(rng, 'ABSORPTION')}({_sp(rng)}{_modes(rng, ABS, wild_p)}{_sp(rng)})"
+        return ["ABSORPTION", None, modes(ABS, wild_p)]
     if k < 0.4:
-        return f"{_case(rng, 'ELIMINATION')}({_modes(rng, ELIM, wild_p)})"
+        return ["ELIMINATION", None, modes(ELIM, wild_p)]
     if k < 0.55:
-        return f"{_case(rng, 'LAGTIME')}({_modes(rng, LAG, wild_p)})"
+        return ["LAGTIME", None, modes(LAG, wild_p)]
     if k < 0.8:
-        s = _counts(rng)
-        if rng.random() < 0.6:
-            s += "," + _sp(rng) + _modes(rng, DEPOT, 0.25)
-        return f"{_case(rng, 'TRANSITS')}({s})"
-    s = _counts(rng)
-    if rng.random() < 0.5:
-        s += "," + _modes(rng, PMODE, wild_p)
-    return f"{_case(rng, 'PERIPHERALS')}({s})"
+        return ["TRANSITS", counts(), modes(DEPOT, 0.25) if rng.random() < 0.6 else None]
+    return ["PERIPHERALS", counts(), modes(PMODE, wild_p) if rng.random() < 0.5 else None]
+
+
+def render_modes(rng, m):
+    if m == "*":
+        return "*"
+    if len(m) == 1 and rng.random() < 0.7:
+        return _case(rng, m[0])
+    return "[" + ("," + _sp(rng)).join(_case(rng, x) for x in m) + "]"
+
+
+def render_counts(rng, c):
+    if len(c) == 1 and rng.random() < 0.7:
+        return str(c[0])
+    if len(c) >= 1 and c == list(range(c[0], c[-1] + 1)) and rng.random() < 0.7:
+        return f"{c[0]}..{c[-1]}"
+    return "[" + ",".join(map(str, c)) + "]"
+
+
+def render_pk(rng, specs):
+    out = ""
+    for i, (kind, cnt, m) in enumerate(specs):
+        if kind in ("TRANSITS", "PERIPHERALS"):
+            arg = render_counts(rng, cnt) + ("," + _sp(rng) + render_modes(rng, m) if m is not None else "")
+        else:
+            arg = _sp(rng) + render_modes(rng, m) + _sp(rng)
+        st = f"{_case(rng, kind)}({arg})"
+        out += ((";" if rng.random() < 0.8 else "\n") + _sp(rng) if i else "") + st
+    return out
+
+
+def gen_pk_specs(rng, wild_p=0.08, nmax=5):
+    n = rng.choice([1, 1, 2, 2, 3, 3, 4, nmax])
+    return [gen_pk_spec(rng, wild_p) for _ in range(n)]
 
 
 def gen_pk_string(rng, wild_p=0.08, nmax=5):
-    n = rng.choice([1, 1, 2, 2, 3, 3, 4, nmax])
-    sts = [gen_pk_statement(rng, wild_p) for _ in range(n)]
-    out = sts[0]
-    for s in sts[1:]:
-        out += (";" if rng.random() < 0.8 else "\n") + _sp(rng) + s
+    return render_pk(rng, gen_pk_specs(rng, wild_p, nmax))
+
+
+def gen_pk_statement(rng, wild_p):
+    return render_pk(rng, [gen_pk_spec(rng, wild_p)])
+
+
+def derive_specs(rng, specs):
+    """a second description related to the first: the same space written differently, a sub-space or a super-space"""
+    how = rng.choice(["same", "same", "sub", "sub", "super"])
+    out = []
+    for kind, cnt, m in specs:
+        cnt2, m2 = (list(cnt) if cnt is not None else None), (list(m) if isinstance(m, list) else m)
+        if how == "sub":
+            if cnt2 and len(cnt2) > 1 and rng.random() < 0.5:
+                cnt2 = rng.sample(cnt2, rng.randint(1, len(cnt2) - 1))
+            if isinstance(m2, list) and len(m2) > 1 and rng.random() < 0.5:
+                m2 = rng.sample(m2, rng.randint(1, len(m2) - 1))
+        elif how == "super":
+            if cnt2 is not None and rng.random() < 0.5:
+                cnt2 = cnt2 + [rng.randint(0, 7)]
+            if isinstance(m2, list) and rng.random() < 0.5:
+                pool = {"ABSORPTION": ABS, "ELIMINATION": ELIM, "LAGTIME": LAG, "TRANSITS": DEPOT, "PERIPHERALS": PMODE}[kind]
+                m2 = m2 + [rng.choice(pool)]
+        else:
+            if cnt2:
+                rng.shuffle(cnt2)
+            if isinstance(m2, list):
+                rng.shuffle(m2)
+        if cnt2 and len(cnt2) > 1 and rng.random() < 0.35:  # split one counted statement into two
+            cut = rng.randint(1, len(cnt2) - 1)
+            out.append([kind, cnt2[:cut], m2])
+            out.append([kind, cnt2[cut:], m2])
+        else:
+            out.append([kind, cnt2, m2])
+    if how == "sub" and len(out) > 1 and rng.random() < 0.4:
+        out.pop(rng.randrange(len(out)))
+    if rng.random() < 0.5:
+        rng.shuffle(out)
     return out
 
 
@@ -194,8 +276,12 @@ def gen_cases(rng: random.Random, n: int, tier: str):
                         "seed": seed})
         elif r < 0.70:
             wp = rng.choice([0.0, 0.0, 0.0, 0.05, 0.2])
-            a, b = gen_pk_string(rng, wp), gen_pk_string(rng, wp)
-            out.append({"kind": "alg", "a": a, "b": b, "seed": seed})
+            sa = gen_pk_specs(rng, wp)
+            related = rng.random() < 0.4
+            sb = derive_specs(rng, sa) if related else gen_pk_specs(rng, wp)
+            if related and rng.random() < 0.5:
+                sa, sb = sb, sa
+            out.append({"kind": "alg", "a": render_pk(rng, sa), "b": render_pk(rng, sb), "seed": seed})
         elif r < 0.88:
             s = gen_pk_string(rng, 0.05, nmax=4)
             out.append({"kind": "search", "mfl": s, "pick": [rng.random() for _ in range(40)],
@@ -933,9 +1019,13 @@ def run_search(case, drv):
     if "only" in case:
         keys = [x for x in keys_all if ms_alg.key_to_str(x) in case["only"] or x[0] in case["only"]]
     else:
+        # choose by the canonical (sorted) position: the dict order of merged ABSORPTION/LAGTIME statements is
+        # hash-randomised and must not influence which keys a case uses
         pick = case["pick"]
-        order = sorted(range(len(keys_all)), key=lambda i: -pick[i % len(pick)] if pick else 0)
-        keys = [keys_all[i] for i in sorted(order[:case["size"]])]
+        canon = sorted(keys_all, key=lambda x: tuple(map(str, x)))
+        score = {x: (pick[i % len(pick)] if pick else 0) for i, x in enumerate(canon)}
+        chosen = set(sorted(canon, key=lambda x: -score[x])[:case["size"]])
+        keys = [x for x in keys_all if x in chosen]
     funcs = {x: allf[x] for x in keys}
     wire = [key_sexp(x) for x in keys]
     tags.append(f"search-keys={len(keys)}")
